@@ -634,7 +634,7 @@ def _iterm(c, v):
     return v if c == 1 else "%d * %s" % (c, v)
 
 
-def gen_affine(rng, allow_k3=False, allow_occ=False, two_red_p=0.2):
+def gen_affine(rng, allow_k3=False, allow_occ=False, two_red_p=0.2, reverse_follow_p=0.0):
     """Integer-affine accesses: convolution with stride/dilation, subsampling; 1-D or 2-D,
     optional plain channel ranks; optional shape partitioning of the output rank with the
     input rank following it."""
@@ -765,6 +765,13 @@ def gen_affine(rng, allow_k3=False, allow_occ=False, two_red_p=0.2):
                 part[d["w"]] = ["follow(%s)" % d["s"]]
                 plevels[d["s"]] = nlev
                 d["part_rank"] = d["s"]
+            elif reverse_follow_p and not occ and rng.random() < reverse_follow_p:
+                # the accessed rank is partitioned and the output rank follows it (text-only checks: the unchanged
+                # tree gives such a split no halo, so results are not judged for it)
+                part[d["w"]] = dirs
+                part[d["q"]] = ["follow(%s)" % d["w"]]
+                plevels[d["q"]] = nlev
+                d["part_rank"] = d["q"]
             else:
                 part[d["q"]] = dirs
                 part[d["w"]] = ["follow(%s)" % d["q"]]
@@ -962,7 +969,11 @@ def effective_loop_order(spec, out):
     res = []
     for r in base:
         if r in part:
-            n = len([d for d in part[r] if not d.startswith(("follow", "flatten"))])
+            dirs = part[r]
+            if dirs and dirs[0].startswith("follow("):
+                # a rank that follows another rank is split into as many levels as that rank
+                dirs = part.get(dirs[0][len("follow("):-1].strip(), [])
+            n = len([d for d in dirs if not d.startswith(("follow", "flatten"))])
             res.extend(levels_of(r, n) if n else [r])
         else:
             res.append(r)
@@ -991,7 +1002,27 @@ def add_spacetime(rng, spec, out, loop_ranks, allow_coord=True, no_coord=()):
     return st
 
 
+def gen_scalar(rng):
+    """An Einsum without any loop rank: Z[] = A[] (* B[]) (* x)."""
+    facs = ["A[]"] + (["B[]"] if rng.random() < 0.5 else [])
+    decl = {"A": [], "Z": []}
+    if len(facs) == 2:
+        decl["B"] = []
+    if rng.random() < 0.3:
+        facs.insert(rng.randrange(len(facs) + 1), "xa")
+    spec = {"decl": decl, "exprs": ["Z[] = " + " * ".join(facs)], "rank_order": None, "partitioning": None,
+            "loop_order": None, "spacetime": None, "arch": None, "bindings": None, "format": None}
+    meta = {"ranks": [], "out_only": [], "kind": "times", "nterms": 1, "scalars": ["xa"] if "xa" in facs else [],
+            "part": {}, "syms": {}, "extents": {}, "nlevels": 0, "npart": 0}
+    return spec, meta
+
+
 def gen_spacetime(rng):
+    if rng.random() < 0.04:
+        spec, meta = gen_scalar(rng)
+        st = add_spacetime(rng, spec, "Z", [])
+        meta.update({"base": "P", "loop_ranks": [], "st": st})
+        return spec, meta
     base = _choice_w(rng, [("P", 3), ("S", 4), ("O", 3), ("A", 3)])
     if base == "A":
         spec, meta = gen_affine(rng)
@@ -1086,7 +1117,7 @@ def gen_mixed(rng, weights=None):
         spec, meta = gen_affine(rng, allow_occ=True)
     elif c == "A2":
         # several index variables inside one access more often (order of first appearance within an access)
-        spec, meta = gen_affine(rng, two_red_p=0.6)
+        spec, meta = gen_affine(rng, two_red_p=0.6, reverse_follow_p=0.3)
     elif c == "K":
         spec, meta = gen_cascade(rng)
     elif c == "T":
